@@ -93,5 +93,53 @@ theorem build_flat_conj (f : Nat) (as : List PItem) (ha : ∀ a ∈ as, IsAtom a
   rw [show f + 6 = (f + 3) + 3 from rfl, unionOfList_one (f + 3) g' (flatNF_notUnion g' hg')]
   exact hg'
 
+/-- folding `a1 or a2 or … or an`: every `or` opens a new group, every atom lands in a fresh `AnyMarker` group,
+    so the groups are the atoms themselves -/
+theorem fold_disj (F : Nat) : ∀ (as : List PItem) (gs out : List M), (∀ a ∈ as, IsAtom a) → as ≠ [] → AllSingle gs →
+    (joinItems .or_ (as.map fun a => [a])).foldl (bstep (F + 1)) (some (.any :: gs)) = some out → AllSingle out
+  | [], _, _, _, hne, _, _ => absurd rfl hne
+  | [a], gs, out, ha, _, hg, h => by
+    simp only [List.map_cons, List.map_nil, joinItems, List.foldl_cons, List.foldl_nil] at h
+    rw [bstep_atom _ .any gs a (ha a (List.mem_cons_self ..))] at h
+    simp only [Option.map_eq_some_iff] at h
+    obtain ⟨m, hm, rfl⟩ := h
+    have hms := build_atom_single _ a (ha a (List.mem_cons_self ..)) m hm
+    intro x hx
+    simp only [List.mem_cons] at hx
+    rcases hx with hx | hx
+    · rw [hx, show M.and (F + 1) M.any m = m from by simp [M.and]]; exact hms
+    · exact hg x hx
+  | a :: b :: rest, gs, out, ha, _, hg, h => by
+    simp only [List.map_cons, joinItems, List.singleton_append, List.foldl_cons] at h
+    rw [bstep_atom _ .any gs a (ha a (List.mem_cons_self ..))] at h
+    cases hb : build (F + 1) a with
+    | none =>
+      rw [hb] at h
+      simp only [Option.map_none, bstep] at h
+      have : ∀ l : List PItem, l.foldl (bstep (F + 1)) none = none := by
+        intro l; induction l with
+        | nil => rfl
+        | cons _ _ ih => simpa [bstep] using ih
+      rw [this] at h; cases h
+    | some m =>
+      rw [hb] at h
+      simp only [Option.map_some, bstep, M.and] at h
+      have hm := build_atom_single _ a (ha a (List.mem_cons_self ..)) m hb
+      have := fold_disj F (b :: rest) (m :: gs) out (fun x hx => ha x (List.mem_cons_of_mem _ hx)) (by simp)
+        (by intro x hx; simp only [List.mem_cons] at hx; rcases hx with rfl | hx; exact hm; exact hg x hx)
+      simp only [List.map_cons] at this
+      exact this h
+
+/-- **parse of a flat disjunction is in normal form** (every fuel ≥ 3) -/
+theorem build_flat_disj (f : Nat) (as : List PItem) (ha : ∀ a ∈ as, IsAtom a) (hne : as ≠ []) (r : M)
+    (h : build (f + 3) (.group (joinItems .or_ (as.map fun a => [a]))) = some r) : FlatNF false r := by
+  rw [build_group] at h
+  simp only [Option.map_eq_some_iff] at h
+  obtain ⟨groups, hg, rfl⟩ := h
+  have hs := fold_disj (f + 1) as [] groups ha hne allSingle_nil hg
+  apply unionOfList_flat
+  intro x hx
+  exact hs x (by simpa using hx)
+
 end C15
 end DepLogic
